@@ -56,13 +56,20 @@ class UnitResult:
 
 def scan_trusted(text):
     out = []
-    for i, ln in enumerate(text.split("\n"), 1):
+    lines = text.split("\n")
+    for i, ln in enumerate(lines, 1):
         s = ln.strip()
         if s.startswith("//"): continue
         for kw in ("assume_specification", "external_body", "external_type_specification",
-                   "external_trait_specification", "admit(", "assume(", "uninterp spec fn", "axiom fn", "external_fn_specification"):
+                   "external_trait_specification", "admit(", "assume(", "uninterp spec fn", "axiom fn", "external_fn_specification",
+                   "verifier::external]"):
             if kw in s:
-                out.append("%s @gen:%d: %s" % (kw.rstrip("("), i, s[:140]))
+                shown = s
+                if s.startswith("#[") and s.endswith("]"):
+                    # an attribute on its own line: show the item it is attached to
+                    nxt = [l.strip() for l in lines[i:i + 3] if l.strip() and not l.strip().startswith("#[")]
+                    if nxt: shown = s + " " + nxt[0]
+                out.append("%s @gen:%d: %s" % (kw.rstrip("(]"), i, shown[:200]))
                 break
     return out
 
